@@ -431,6 +431,20 @@ class PcSpeakerDevice(Device):
         self.impl.pcspkr_sound(freq, duration)
 
 
+def parse_integral(s):
+    """Convert the text of a number to an int the way QBASIC assigns a
+    numeric constant to an INTEGER/LONG variable: a numeral with a
+    fractional part or an exponent is rounded (half to even). Raises
+    ValueError if the text is not a number."""
+    try:
+        return int(s)
+    except ValueError:
+        value = float(s)
+        if value != value or value in (float('inf'), float('-inf')):
+            raise ValueError(f'Not a finite number: {s}')
+        return int(round(value))
+
+
 class DataDevice(Device):
     name = 'data'
 
@@ -454,10 +468,10 @@ class DataDevice(Device):
 
         try:
             if data_type == 1:
-                value = 0 if s == Empty.value else int(s)
+                value = 0 if s == Empty.value else parse_integral(s)
                 self.cpu.push(CellType.INTEGER, value)
             elif data_type == 2:
-                value = 0 if s == Empty.value else int(s)
+                value = 0 if s == Empty.value else parse_integral(s)
                 self.cpu.push(CellType.LONG, value)
             elif data_type == 3:
                 value = 0.0 if s == Empty.value else float(s)
